@@ -129,3 +129,72 @@ Theorem C03_lint_fix_total_from_invariants :
         fixmode all t).
 Proof. exact lint_fix_total_from_invariants. Qed.
 Print Assumptions C03_lint_fix_total_from_invariants.
+
+(* ------------------------------------------------------------------ the parser engine *)
+From Sq Require Pem.Model Pem.Proofs Pem.NoPanicCert Pem.NoPanic Pem.NoPanicEx.
+
+(** Panic-freedom of the parser engine, on the Gallina interpreter of the whole combinator engine
+    ([Pem.Model], replayed against the real parser on every run).  For every grammar graph that
+    satisfies the decidable side condition [panic_safe_b] (evaluated on each dumped dialect graph by
+    [coq/gen/PemNoPanic_<d>.v]) and is closed, every token array defined below [ntoks], every regex
+    oracle, fuel and span [s <= e <= ntoks]: the parse of the root grammar does not end in any of the
+    engine's [panic!] / [unwrap] / [unimplemented!] / index sites.  [start_ok]: parsing starts behind
+    index 0, or the first token is not a meta and pruning and [next_match] agree on its raw. *)
+Theorem Pem_parse_never_panics : forall g,
+  Pem.NoPanicCert.panic_safe_b g = true -> Pem.Proofs.pem_closed_b g = true ->
+  forall toks ntoks rx fuel s e p,
+    Pem.NoPanic.toks_def toks ntoks -> (s <= e)%N -> (e <= ntoks)%N -> Pem.NoPanic.start_ok g toks s ->
+    Pem.Model.parse_root g toks rx fuel s e <> Pem.Model.RPanic p.
+Proof. exact Pem.NoPanic.parse_never_panics. Qed.
+Print Assumptions Pem_parse_never_panics.
+
+(** For a graph with dangling references (the recorded findings of C14) the only abort left is the
+    recorded one: "Grammar refers to ... which was not found" at a node whose reference is missing. *)
+Theorem Pem_parse_panics_only_dangling : forall g,
+  Pem.NoPanicCert.panic_safe_b g = true ->
+  forall toks ntoks rx fuel s e p,
+    Pem.NoPanic.toks_def toks ntoks -> (s <= e)%N -> (e <= ntoks)%N -> Pem.NoPanic.start_ok g toks s ->
+    Pem.Model.parse_root g toks rx fuel s e = Pem.Model.RPanic p ->
+    exists n, p = Pem.Model.PDangling n /\ Pem.Proofs.dangling_b g n = true.
+Proof. exact Pem.NoPanic.parse_panics_only_dangling_safe. Qed.
+Print Assumptions Pem_parse_panics_only_dangling.
+
+(** The same for any certificate accepted by the checker (the side condition uses the computed least one). *)
+Theorem Pem_parse_panics_only_dangling_cert : forall g cx,
+  Pem.NoPanicCert.cert_ok_b g cx = true ->
+  forall toks ntoks rx fuel s e p,
+    Pem.NoPanic.toks_def toks ntoks -> (s <= e)%N -> (e <= ntoks)%N -> Pem.NoPanic.start_ok g toks s ->
+    Pem.Model.parse_root g toks rx fuel s e = Pem.Model.RPanic p ->
+    exists n, p = Pem.Model.PDangling n /\ Pem.Proofs.dangling_b g n = true.
+Proof. exact Pem.NoPanic.parse_panics_only_dangling. Qed.
+Print Assumptions Pem_parse_panics_only_dangling_cert.
+
+(** The premise on the first token cannot be dropped: on a panic-safe closed graph, a first token whose
+    trimmed raw is a keyword terminator while its whole raw is not makes the keyword guard of
+    [greedy_match] read [segments[0 - 1]]. *)
+Theorem Pem_panic_first_token_refuted :
+  exists g toks, Pem.NoPanicCert.panic_safe_b g = true /\ Pem.Proofs.pem_closed_b g = true
+                 /\ Pem.NoPanic.toks_def toks 1 /\ ~ Pem.NoPanic.start_ok g toks 0
+                 /\ Pem.Model.parse_root g toks [] 30 0 1 = Pem.Model.RPanic Pem.Model.PIndex.
+Proof. exact Pem.NoPanicEx.start_ok_needed. Qed.
+Print Assumptions Pem_panic_first_token_refuted.
+
+(** Nor can the side condition: closed graphs that violate it and reach [simple().unwrap()] (a context
+    terminator without first-token hint below a Greedy Sequence), [unimplemented!()] ([Bracketed]
+    without gaps) and an index past the slice (a leaf entered on the empty span). *)
+Theorem Pem_panic_safe_needed :
+  (exists g l s e, Pem.NoPanicEx.unsafe_witness g l s e Pem.Model.PUnwrap)
+  /\ (exists g l s e, Pem.NoPanicEx.unsafe_witness g l s e Pem.Model.PUnimpl)
+  /\ (exists g l s e, Pem.NoPanicEx.unsafe_witness g l s e Pem.Model.PIndex).
+Proof. exact Pem.NoPanicEx.panic_safe_needed. Qed.
+Print Assumptions Pem_panic_safe_needed.
+
+(** Fuel: an answer of the interpreter other than "out of fuel" is the answer for every larger fuel
+    (every algorithm of the engine is monotone in the recursive matcher and in its loop fuel).  Step 1
+    of termination; a fuel bound itself is not proved (notes/C03.md). *)
+From Sq Require Pem.FuelMono.
+Theorem Pem_fuel_monotone : forall g toks rx fuel fuel' s e r,
+  (fuel <= fuel')%nat -> Pem.Model.parse_root g toks rx fuel s e = r -> r <> Pem.Model.RFuel ->
+  Pem.Model.parse_root g toks rx fuel' s e = r.
+Proof. exact Pem.FuelMono.parse_root_fuel_mono. Qed.
+Print Assumptions Pem_fuel_monotone.
